@@ -108,6 +108,8 @@ fn main() {
                 let mut s = String::new();
                 if i % 10 == 9 {
                     symbase::run_parse_case(&format!("Y{}-{}", seed, i), &mut cr, &mut s);
+                } else if i % 10 == 4 {
+                    symbase::run_casekey_case(&format!("Y{}-{}", seed, i), &mut cr, &mut s);
                 } else {
                     symbase::run_case(&format!("Y{}-{}", seed, i), &mut cr, &mut s);
                 }
